@@ -243,7 +243,7 @@ def checkQuery (w : World) (t : Tally) : Sexp → Tally
   | .list [d, a, b, r] =>
     match decDate d, a.str?, b.str?, decRes r with
     | some date, some a, some b, some impl =>
-      let ms := (cfgsWith (fuelBound w.repo date)).map fun cfg => modelEval w cfg date a b
+      let ms := (cfgsWith (fuelBound w.repo date) ++ [cfgHeap w.repo (fuelBound w.repo date)]).map fun cfg => modelEval w cfg date a b
       let best := (ms.map (resCmp impl)).foldl max 0
       let first := ms.headD (.crash "none")
       let tie := ms.any fun m => resCmp first m != 2
